@@ -170,6 +170,25 @@ def unit_doubles():
                      st.floats(0.5 - 1e-9, 0.5 + 1e-9))
 
 
+def check_layouts(ctx, case) -> None:
+    """A fixed 3x4 block of distinct degrees presented through several memory layouts: each result element is the
+    hedge of the element at the same index."""
+    name = case["hedge"]
+    h = make(name)
+    base = np.array([[0.0, 0.1, 0.2, 0.3], [0.45, 0.5, 0.55, 0.6], [0.7, 0.8, 0.9, 1.0]])
+    views = {"C": base.copy(), "F": np.asfortranarray(base), "T": base.T, "T-F": np.asfortranarray(base.T),
+             "strided": np.repeat(base, 2, axis=1)[:, ::2], "column-slice": np.asfortranarray(base)[:, 1:3],
+             "3d-transposed": np.stack([base, base[::-1]]).transpose(2, 0, 1), "reversed": base[::-1, ::-1]}
+    for lay, arr in views.items():
+        got = np.asarray(h.hedge(arr), dtype=float)
+        ctx.ev()
+        ctx.check(got.shape == arr.shape, "layout-shape", {"hedge": name, "layout": lay}, {"got": list(got.shape)})
+        want = np.array([float(h.hedge(float(v))) for v in np.asarray(arr).reshape(-1)]).reshape(arr.shape)
+        ctx.check(bool(np.array_equal(got, want, equal_nan=True)), "layout-elementwise", {"hedge": name, "layout": lay},
+                  {"got": got.reshape(-1).tolist()[:8], "want": want.reshape(-1).tolist()[:8]})
+    ctx.nt(["layouts", name], {"hedge": name, "layouts": sorted(views)})
+
+
 def cases_points():
     @st.composite
     def s(draw):
@@ -204,6 +223,7 @@ def run(ctx) -> None:
     ctx.exhaustive_parts.append("all 6 hedges x all x = k/4096, k = 0..4096 (formula, range, fixed points, "
                                 "monotonicity, scalar==array, ordering, inverse pairs, involution)")
     ctx.direct("nonfinite", check_nonfinite, [{"x": float("nan")}, {"x": np.array([float("nan"), 0.3])}])
+    ctx.direct("layouts", check_layouts, [{"hedge": name} for name in HEDGES])
     ex = 600 if ctx.tier == "quick" else 20000
     ctx.hyp("points", cases_points(), check_points, ex)
     ctx.hyp("relations", st.builds(lambda xs: {"xs": xs, "exact": False},
@@ -211,7 +231,8 @@ def run(ctx) -> None:
 
 
 def replay(ctx, prop: str, case) -> None:
-    fn = {"points": check_points, "relations": check_relations, "nonfinite": check_nonfinite}.get(prop)
+    fn = {"points": check_points, "relations": check_relations, "nonfinite": check_nonfinite,
+          "layouts": check_layouts}.get(prop)
     if fn is None:
         return
     ctx.direct(prop, fn, [case])
